@@ -217,11 +217,15 @@ Fixpoint chain (author : key) (known : option room) (stored : option roomnode) (
 Definition dec_opt (r : option room) (probes : list probe) : list Z :=
   match r with Some r => 1 :: decisions r probes | None => [0] end.
 
+(* after the last step the history sends nine deletion requests aimed at the rows and references of the
+   room definition (sys.Room admin / authorisations, sys.Authorisation rights / users / user_admin, the
+   entry rows, the group row, the room row): validate_deletion refuses every one of them (0) *)
+Definition n_del : nat := 9.
 Definition run_hist (author : key) (steps : list (list ievent)) (probes : list probe) : list Z :=
   let evs := concat steps in
   let '(r, oks) := live steps in
   let '(vs, rb) := chain author None None (prefixes [] steps) in
-  map zb oks ++ decisions r probes ++
+  repeat 0 n_del ++ map zb oks ++ decisions r probes ++
   dec_opt (reload evs) probes ++
   match fresh_import author steps with POk rf => 1 :: decisions rf probes | PErr e => [perr_code e] end ++
   vs ++ dec_opt rb probes ++
@@ -311,6 +315,9 @@ Definition spec_C10 (c : c10case) (obs : list Z) : bool :=
   | CHist author steps probes =>
       let evs := events_of steps in
       let ne := length evs in let nd := (5 * length probes)%nat in let ns := length steps in
+      (* every deletion request aimed at the definition was refused; the views below are judged as before *)
+      forallb (Z.eqb 0) (take n_del obs) && Nat.eqb (length (take n_del obs)) n_del &&
+      let obs := dropn n_del obs in
       let oks := take ne obs in
       let dl := take nd (dropn ne obs) in
       let r1 := dropn (ne + nd) obs in
